@@ -215,8 +215,8 @@ def run(prop: str, tier_: str) -> int:
                         if b.name == 'tenc':
                             kid = b.f['default_kid']
                     for qv in vecs:
-                        if enc and (qv in ('', 'drm=none') or qv.startswith('&')):
-                            continue
+                        if enc and (qv in ('', 'drm=none') or qv.startswith('&') or qv.startswith('drm=none&')):
+                            continue        # an encrypted file is not served without a DRM selection (404 by design)
                         for mode in ('live', 'vod'):
                             routes = [f'/dash/{mode}/{stream}/{rid}/init.{ext}']
                             if stream in ppk:
@@ -226,7 +226,8 @@ def run(prop: str, tier_: str) -> int:
                                 r = c.get(url)
                                 tid += 1
                                 if r.status_code != 200:
-                                    lines.append({'tid': tid, 'ev': 'refused', 'url': url, 'status': r.status_code})
+                                    lines.append({'tid': tid, 'ev': 'init_refused', 'url': url, 'status': r.status_code, 'rep': rid, 'mode': mode,
+                                                  'encrypted': enc})
                                     continue
                                 pr = Parsed(r.data)
                                 moov = pr.find('moov')
